@@ -90,6 +90,11 @@ CHECKS = {
    "Bases: a wallet spend (change + allowlisted destination), a single-channel funding with change, a two-channel funding from two inputs x 2 policies (max fee rate 333333 / 5000 sat per kw, daily / hourly 3000 sat fee velocity) x 3 allowlists (foreign address; + the wallet's own change address; + a foreign xpub and the node's own xpub) x 2 entry points. Deviations: each output replaced by every other class (wallet native / wrapped / taproot at the right, wrong or no path; allowlisted script with and without path; xpub-derived at the right, wrong or no path; foreign with and without path; funding output breaking one rule: value +-1 / +100000, script of other keys, inbound, push, initial commitment not counter-signed, channel already advanced), outputs added / dropped / zero / 2^63 / 2^64-1, a third channel funded, segwit and non-segwit inputs added, segwit flags cleared, input values 0 / 2^64-1, version 1 / 3, the non-beneficial value set to 0, around max_rate x weight / 1000 for the unsigned, the signer's and the reference's weight, to every output value (+fee, x2), to 2^32 and 2^64 wrap candidates, the request repeated at once and after an hour. Channels are really created, set up on the transaction's outpoint and (unless the deviation says otherwise) their initial holder commitment validated with harness signatures.",
    "A pass requires the reference to hold; a report of unknown destinations must list exactly the reference-unknown outputs, and the approver must be consulted exactly then. What an operator then approves is outside the property.",
    "4.4"),
+ "C09": (True, "c09", "model_checking",
+   "exhaustive enumeration of the full product of field alphabets of sweep requests, and base + every single (thorough: pair of) mutation of second-level HTLC transactions, on a real channel per commitment type; reference envelope + BOLT-3 HTLC transaction built by the harness + secp256k1 verification",
+   "Sweeps (sign_delayed_sweep, sign_counterparty_htlc_sweep with offered and received redeemscripts, sign_justice_sweep): commitment type x version {1,2,3} x 13 locktimes (0, height, height+2, +3, +145, HTLC expiry, +1, +145, 499999999, 500000000, past and future timestamps, 2^32-1) x 11 sequences of the signed input (delay-1, delay, delay+1, 0, 1, 0xfffffffd/e/f, 65535, time-flagged, delay+145) x another input (absent, or before/after the signed one with its own sequence) x 9 output patterns (wallet, wallet at another path, allowlisted, foreign, and two-output mixes in both orders): 75k (quick) / 290k requests. HTLC transactions (sign_holder_htlc_tx, sign_counterparty_htlc_tx; offered and received; both commitment types): version, locktime, sequence, prevout, fee at min-2 / min / max / max+2 / 0 / 2^32-wrap, output value +-1, output script with another delay / revocation key / delayed key / foreign, extra input / output, amount +-1, other or junk redeemscript, other per-commitment point. A signed sweep must satisfy the envelope; a signed HTLC transaction must have the sighash of the harness-built BOLT-3 transaction for the negotiated delay and keys at an in-range fee rate, and the signature must verify against it under the node's HTLC key with the channel type's sighash flag.",
+   "Qualitative bounds use a generous envelope (e.g. locktime <= height + 144) so that removing a check is caught but retuning a constant is not; the parameter-only sign_holder_htlc_tx_phase2 is out of scope as in the statement.",
+   "4.5"),
  "C20": (True, "concur", "model_checking",
    "stateless model checking of the real Node under shuttle's runtime with an own preemption-bounded depth-first scheduler (iterative context bounding); linearizability by brute force against all sequential orders",
    "vls-core is built with --cfg vls_verif so that every Mutex of its prelude (node state, channel map, channel slots, tracker, monitor state, stores) is shuttle's. For each of ~110 scenarios (every unordered pair of 14 request kinds - commitment updates, forget/new/setup channel, balance, heartbeat, keysend, on-chain check and signature, block with the channel's close (compact and streamed), empty block, allowlist - plus the single-channel races validate||revoke, sign-holder||revoke, sign-counterparty||counterparty-revocation; thorough adds triples) every schedule of the request threads with <= 1 (2) preemptions is executed to completion on a freshly built node, and <= 2 (3) preemptions as far as the budget goes; a schedule that cannot complete is a deadlock, and the tuple (replies, fingerprint of live state and store) must equal that of some sequential order of the same requests.",
